@@ -1,8 +1,11 @@
 package rules
 
 import (
+	"fmt"
 	"go/token"
 	"go/types"
+	"os"
+	"strings"
 
 	"golang.org/x/tools/go/ssa"
 
@@ -13,9 +16,12 @@ import (
 func init() {
 	Register(&Prop{
 		ID: "C16",
-		Decides: "core.deadliner: (N1) the duty set and the timer are owned by the single run goroutine, the expiry channel is written only there, only in the timer case, with the duty selected by getCurrDuty; " +
-			"(N2) a registration is answered Exempt/Expired and skipped before it can enter the set, the Scheduled reply precedes the insertion, the set is keyed by the duty (re-adding is idempotent) and the timer is re-armed when the new deadline is earlier; " +
-			"(N3) an expired duty is removed from the set only on paths on which its report was delivered; (N4) getCurrDuty selects the minimum deadline and updates duty and deadline together.",
+		Decides: "core.deadliner, decided on the explored paths of one iteration of the run goroutine's event loop (helpers, closures and deferred calls followed): " +
+			"(N1) the duty set and the timer are owned by the single run goroutine, the expiry channel is written only there, only in the timer case, with the duty selected by getCurrDuty; " +
+			"(N2) a registration is answered exactly once; Exempt/Expired registrations never enter the set, the Scheduled reply precedes the insertion, the already-expired test uses a clock value read after the registration arrived, " +
+			"the set is keyed by the received duty (re-adding is idempotent) and the timer state is recomputed when the new deadline is earlier than the armed one; " +
+			"(N3) an expired duty is removed from the set only on paths on which its report was delivered; (N5) after a removal the timer state is recomputed before the next event; " +
+			"(N4) getCurrDuty selects the minimum deadline, ignores never-expiring duties and returns the duty whose deadline it returns.",
 		NotDecided: "'at or after its deadline' and ordering by deadline as statements about clock values; behaviour of the clockwork timer.",
 		Run:        c16,
 		Mutants: []Mutant{
@@ -49,117 +55,623 @@ func init() {
 			{ID: "C16-N4-split-update", File: "core/deadline.go", Expect: "N4",
 				Old: "\t\tif currDeadline.After(dutyDeadline) {\n\t\t\tcurrDuty = duty\n",
 				New: "\t\tcurrDuty = duty\n\t\tif currDeadline.After(dutyDeadline) {\n"},
+			// added with the path-based reformulation (h1617)
+			{ID: "C16-N2-stale-clock", File: "core/deadline.go", Expect: "N2|reads the clock after",
+				Old:  "\tfor {\n\t\tselect {\n\t\tcase <-ctx.Done():\n\t\t\treturn\n\t\tcase input := <-d.inputChan:",
+				New:  "\tfor {\n\t\tnow := d.clock.Now()\n\n\t\tselect {\n\t\tcase <-ctx.Done():\n\t\t\treturn\n\t\tcase input := <-d.inputChan:",
+				More: [][2]string{{"\t\t\tif deadline.Before(d.clock.Now()) {", "\t\t\tif deadline.Before(now) {"}}},
+			{ID: "C16-N1-helper-sends-in-input-case", File: "core/deadline.go", Expect: "N1|flush",
+				Old:  "\t\t\tinput.success <- DeadlineScheduled\n",
+				New:  "\t\t\tinput.success <- DeadlineScheduled\n\n\t\t\td.flush(input.duty)\n",
+				More: [][2]string{{"// C returns the deadline channel.", "func (d *deadliner) flush(duty Duty) {\n\tselect {\n\tcase d.deadlineChan <- duty:\n\tdefault:\n\t}\n}\n\n// C returns the deadline channel."}}},
+			{ID: "C16-N1-closure-goroutine", File: "core/deadline.go", Expect: "N1|stays local",
+				Old: "\t\t\tif deadline.Before(currDeadline) {\n\t\t\t\tsetCurrState()\n\t\t\t}",
+				New: "\t\t\tif deadline.Before(currDeadline) {\n\t\t\t\tgo setCurrState()\n\t\t\t}"},
+			{ID: "C16-N2-no-reply-exempt", File: "core/deadline.go", Expect: "N2",
+				Old: "\t\t\t\tinput.success <- DeadlineExempt\n\t\t\t\tcontinue\n",
+				New: "\t\t\t\tcontinue\n"},
+			{ID: "C16-N3-clear-set", File: "core/deadline.go", Expect: "N3|without report",
+				Old: "\t\t\tdelete(duties, currDuty)\n",
+				New: "\t\t\tclear(duties)\n"},
+			{ID: "C16-N5-recompute-before-delete", File: "core/deadline.go", Expect: "N5",
+				Old: "\t\t\tdelete(duties, currDuty)\n\t\t\tsetCurrState()",
+				New: "\t\t\tsetCurrState()\n\t\t\tdelete(duties, currDuty)"},
+			{ID: "C16-N4-ignore-ok", File: "core/deadline.go", Expect: "N4|never-expiring",
+				Old: "\t\tif !ok {\n\t\t\t// Ignore the duties that never expire.\n\t\t\tcontinue\n\t\t}\n",
+				New: "\t\t_ = ok\n"},
+			{ID: "C16-N4-select-not-earlier", File: "core/deadline.go", Expect: "N4|earliest",
+				Old: "\t\tif currDeadline.After(dutyDeadline) {",
+				New: "\t\tif !currDeadline.After(dutyDeadline) {"},
 		},
 	})
 }
 
 const dlnr = "core.deadliner"
 
-func c16(c *rt.Ctx) {
-	run := c.Fn("core.deadliner.run")
-	all := an.Closure(run)
+// h1617Agg collects the per-path verdicts of one obligation (keyed by construct and site) and reports each
+// obligation once: violated if some path violates it, undecided if some path could not be decided.
+type h1617Agg struct {
+	c     *rt.Ctx
+	order []string
+	items map[string]*h1617Item
+}
 
-	// the duty set: the map[Duty]bool written in the input case
-	var setUps []*ssa.MapUpdate
-	for _, in := range an.Instrs(run, true) {
-		if mu, ok := in.(*ssa.MapUpdate); ok {
-			if m, ok := mu.Map.Type().Underlying().(*types.Map); ok && an.TypeName(m.Key()) == "core.Duty" {
-				setUps = append(setUps, mu)
+type h1617Item struct {
+	construct   string
+	pos         token.Pos
+	bad, unsure string
+}
+
+func newAgg(c *rt.Ctx) *h1617Agg { return &h1617Agg{c: c, items: map[string]*h1617Item{}} }
+
+func (a *h1617Agg) item(construct string, pos token.Pos) *h1617Item {
+	k := construct + "@" + a.c.P.Pos(pos)
+	it := a.items[k]
+	if it == nil {
+		it = &h1617Item{construct: construct, pos: pos}
+		a.items[k] = it
+		a.order = append(a.order, k)
+	}
+	return it
+}
+
+func (a *h1617Agg) ok(construct string, pos token.Pos) { a.item(construct, pos) }
+
+func (a *h1617Agg) check(construct string, pos token.Pos, ok bool, detail string) {
+	it := a.item(construct, pos)
+	if !ok && it.bad == "" {
+		it.bad = detail
+	}
+}
+
+func (a *h1617Agg) bad(construct string, pos token.Pos, detail string) {
+	a.check(construct, pos, false, detail)
+}
+
+func (a *h1617Agg) unsure(construct string, pos token.Pos, detail string) {
+	it := a.item(construct, pos)
+	if it.unsure == "" {
+		it.unsure = detail
+	}
+}
+
+func (a *h1617Agg) flush() {
+	for _, k := range a.order {
+		it := a.items[k]
+		switch {
+		case it.bad != "":
+			a.c.Bad(it.construct, it.pos, it.bad)
+		case it.unsure != "":
+			a.c.Unsure(it.construct, it.pos, it.unsure)
+		default:
+			a.c.Good(it.construct, it.pos, "")
+		}
+	}
+}
+
+// h1617Dump prints the explored paths when H1617_TRACE is set (debugging aid).
+func h1617Dump(what string, res *an.TraceResult) {
+	if os.Getenv("H1617_TRACE") == "" {
+		return
+	}
+	fmt.Printf("TRACE %s: %d paths truncated=%v pruned=%d\n", what, len(res.Paths), res.Truncated, res.Pruned)
+	for i, p := range res.Paths {
+		fmt.Printf(" path %d end=%s\n", i, p.End)
+		for j, e := range p.Evs {
+			fmt.Printf("   %3d %s%s\n", j, strings.Repeat(" ", e.Depth), e.String())
+		}
+	}
+}
+
+// lessFact is a decided comparison of two instants on a path: truth of (x earlier than y).
+type lessFact struct {
+	pos   int
+	x, y  *an.Sym
+	truth bool
+}
+
+// h1617Index maps the result symbols of the call events of a path to their positions.
+func h1617Index(p *an.Path) map[*an.Sym]int {
+	m := map[*an.Sym]int{}
+	for i, e := range p.Evs {
+		if e.Res != nil && (e.Kind == "call" || e.Kind == "lookup" || e.Kind == "builtin") {
+			m[e.Res] = i
+		}
+	}
+	return m
+}
+
+// lessFacts lists the branch decisions of a path on time.Time.Before / After results, normalised to "x earlier than y".
+func lessFacts(p *an.Path) []lessFact {
+	idx := h1617Index(p)
+	var out []lessFact
+	for i, e := range p.Evs {
+		if e.Kind != "branch" {
+			continue
+		}
+		ci, ok := idx[e.Args[0]]
+		if !ok {
+			continue
+		}
+		call := p.Evs[ci]
+		if call.Kind != "call" || len(call.Args) != 2 {
+			continue
+		}
+		switch call.Name {
+		case "time.Time.Before":
+			out = append(out, lessFact{i, call.Args[0], call.Args[1], e.Taken})
+		case "time.Time.After":
+			out = append(out, lessFact{i, call.Args[1], call.Args[0], e.Taken})
+		}
+	}
+	return out
+}
+
+// boolFact returns the decided truth of a boolean symbol on a path (latest decision before position before).
+func boolFact(p *an.Path, s *an.Sym, before int) (truth, known bool) {
+	if v, ok := s.IsConstBool(); ok {
+		return v, true
+	}
+	for i, e := range p.Evs {
+		if i >= before {
+			break
+		}
+		if e.Kind == "branch" && an.SymEq(e.Args[0], s) {
+			truth, known = e.Taken, true
+		}
+	}
+	return
+}
+
+// branchDependsOn reports whether some branch decision of the path in (from, to) tests a value computed from base
+// (through pure operations or calls taking it as an argument).
+func branchDependsOn(p *an.Path, base *an.Sym, from, to int) bool {
+	derived := map[string]bool{base.Key(): true}
+	var contains func(s *an.Sym, d int) bool
+	contains = func(s *an.Sym, d int) bool {
+		if s == nil || d > 8 {
+			return false
+		}
+		if derived[s.Key()] {
+			return true
+		}
+		for _, a := range s.Args {
+			if contains(a, d+1) {
+				return true
+			}
+		}
+		for _, f := range s.Fields {
+			if contains(f, d+1) {
+				return true
+			}
+		}
+		return false
+	}
+	for i, e := range p.Evs {
+		if i >= to {
+			break
+		}
+		switch e.Kind {
+		case "call", "builtin":
+			if e.Res == nil {
+				continue
+			}
+			for _, a := range e.Args {
+				if contains(a, 0) {
+					derived[e.Res.Key()] = true
+				}
+			}
+		case "branch":
+			if b := e.Args[0]; b.Kind == an.KBin && len(b.Args) == 2 && (b.Args[0].IsNil() || b.Args[1].IsNil()) {
+				continue // nil test (error plumbing), not a test of the value's content
+			}
+			if i > from && contains(e.Args[0], 0) {
+				return true
 			}
 		}
 	}
-	outer := func() *ssa.Select { // the event select: has a receive from d.inputChan
-		for _, in := range an.Instrs(run, false) {
-			if sel, ok := in.(*ssa.Select); ok {
-				for _, st := range sel.States {
-					if k, _, ok := an.FieldOf(st.Chan); ok && k == dlnr+".inputChan" && st.Dir == types.RecvOnly {
-						return sel
-					}
+	return false
+}
+
+// unresolvedLocalCall reports a call, at or after position from, through a function value the walker could not
+// resolve to code (a function literal kept somewhere it cannot follow): what happens behind it is unknown, so an
+// obligation that needs an effect after `from` is undecided rather than violated.
+func unresolvedLocalCall(evs []an.Ev, from int) bool {
+	for i := from; i < len(evs) && i >= 0; i++ {
+		e := evs[i]
+		if e.Kind != "call" || e.Callee != nil {
+			continue
+		}
+		ci, ok := e.In.(ssa.CallInstruction)
+		if !ok {
+			continue
+		}
+		cc := ci.Common()
+		if cc.IsInvoke() {
+			continue
+		}
+		if _, isB := cc.Value.(*ssa.Builtin); isB {
+			continue
+		}
+		if _, named := cc.Value.Type().(*types.Named); named {
+			continue // e.g. a DeadlineFunc handed in by the caller
+		}
+		if _, _, isField := an.FieldOf(cc.Value); isField {
+			continue // a callback held in a struct field
+		}
+		return true
+	}
+	return false
+}
+
+func isDutyKeyedMap(t types.Type) bool {
+	m, ok := t.Underlying().(*types.Map)
+	return ok && an.TypeName(m.Key()) == "core.Duty"
+}
+
+func isInvokeOf(v ssa.Value, typ, method string) bool {
+	call, ok := v.(*ssa.Call)
+	return ok && call.Call.IsInvoke() && call.Call.Method.Name() == method && an.TypeName(call.Call.Value.Type()) == typ
+}
+
+const (
+	clockT = "github.com/jonboulle/clockwork.Clock"
+	timerT = "github.com/jonboulle/clockwork.Timer"
+)
+
+func fieldIndexOf(c *rt.Ctx, pkgRel, typ, field string) int {
+	obj := c.Pkg(pkgRel).Types.Scope().Lookup(typ)
+	if obj == nil {
+		c.Bail("type %s.%s not found", pkgRel, typ)
+	}
+	st, ok := obj.Type().Underlying().(*types.Struct)
+	if !ok {
+		c.Bail("%s.%s is not a struct", pkgRel, typ)
+	}
+	for i := 0; i < st.NumFields(); i++ {
+		if st.Field(i).Name() == field {
+			return i
+		}
+	}
+	c.Bail("field %s.%s.%s not found", pkgRel, typ, field)
+	return -1
+}
+
+// c16Iter is one explored iteration of the deadliner's event loop.
+type c16Iter struct {
+	p      *an.Path
+	selPos int
+	sel    an.Ev
+}
+
+func c16(c *rt.Ctx) {
+	run := c.Fn("core.deadliner.run")
+	pkgFuncs := an.PkgFuncs(c.SSAPkg("core"))
+	// the selection function, by name or (should it be renamed) by signature: (duty-keyed map, DeadlineFunc) -> ...
+	getCurr := c.FnOpt("core.getCurrDuty")
+	if getCurr == nil {
+		for _, fn := range pkgFuncs {
+			if fn.Parent() == nil && len(fn.Params) == 2 && isDutyKeyedMap(fn.Params[0].Type()) && an.TypeName(fn.Params[1].Type()) == "core.DeadlineFunc" {
+				getCurr = fn
+			}
+		}
+	}
+	if getCurr == nil {
+		for _, id := range []string{"N1", "N2", "N3", "N5", "N4"} {
+			c.Rule(id, 1, func() { c.Bail("function core.getCurrDuty not found") })
+		}
+		return
+	}
+	// the code that can only run on the run goroutine: run, its local closures and helpers only called from them
+	actor := an.ConfinedTo(run, pkgFuncs)
+	var actorFns []*ssa.Function
+	for _, fn := range pkgFuncs {
+		if actor[fn] {
+			actorFns = append(actorFns, fn)
+		}
+	}
+
+	// the event select: the select of the actor with a receive from d.inputChan
+	var evSel *ssa.Select
+	nSel := 0
+	inIdx, tmIdx := -1, -1
+	for _, fn := range actorFns {
+		for _, in := range an.Instrs(fn, false) {
+			sel, ok := in.(*ssa.Select)
+			if !ok {
+				continue
+			}
+			for i, st := range sel.States {
+				if k, _, ok := an.FieldOf(an.Resolve(st.Chan)); ok && k == dlnr+".inputChan" && st.Dir == types.RecvOnly {
+					evSel, inIdx = sel, i
+					nSel++
 				}
 			}
 		}
-		return nil
-	}()
+	}
+	var iters []c16Iter
+	var res *an.TraceResult
+	explore := func() {
+		if res != nil {
+			return
+		}
+		if evSel == nil || nSel != 1 {
+			c.Bail("run: expected exactly one event select receiving from inputChan in the run goroutine, found %d", nSel)
+		}
+		for i, st := range evSel.States {
+			if st.Dir == types.RecvOnly && isInvokeOf(an.Resolve(st.Chan), timerT, "Chan") {
+				tmIdx = i
+			}
+		}
+		root := evSel.Parent()
+		start := evSel.Block()
+		if l := an.InnermostLoop(root, start); l != nil {
+			start = l.Header
+		}
+		tr := &an.Tracer{Root: root, Start: start, Stop: start,
+			Inline: func(fn *ssa.Function) bool { return (fn.Pkg == run.Pkg || fn.Parent() != nil) && fn != getCurr }}
+		res = tr.Run()
+		h1617Dump("C16 event loop", res)
+		if res.Truncated {
+			c.Bail("run: too many paths through one iteration of the event loop")
+		}
+		for _, p := range res.Paths {
+			for i, e := range p.Evs {
+				if e.Kind == "select" && e.In == ssa.Instruction(evSel) {
+					iters = append(iters, c16Iter{p, i, e})
+					break
+				}
+			}
+		}
+		if len(iters) == 0 {
+			c.Bail("run: no path reaches the event select")
+		}
+	}
+	// iterEnd: the path ran one whole iteration of the event loop (as opposed to leaving the goroutine)
+	iterEnd := func(p *an.Path) bool {
+		return p.End == "stop" || (p.End == "return" && evSel.Parent() != run)
+	}
+	caseName := func(i int) string {
+		switch i {
+		case inIdx:
+			return "input"
+		case tmIdx:
+			return "timer"
+		}
+		return "other"
+	}
+	// covered: every static site of a class that lies in the actor was executed on some explored path
+	covered := func(agg *h1617Agg, what string, in ssa.Instruction) {
+		if !res.Visited[in] {
+			agg.unsure(what, posOf(in), "this site in "+an.FuncName(in.Parent())+" was not reached by the path enumeration of the event loop (helper not followed?)")
+		}
+	}
+	// fromGetCurr: the symbol is result #idx of getCurrDuty: either of a call on this path or the content of a
+	// variable every assignment of which (anywhere, closures included) is that result.
+	fromGetCurr := func(s *an.Sym, idx int) (ok, decided bool) {
+		want := "core.Duty"
+		if idx == 1 {
+			want = "time.Time"
+		}
+		tuple := getCurr.Signature.Results().Len() == 2
+		// a component of a getCurrDuty result: result #idx of the pair, or (should the pair become a struct) the
+		// field of the matching type
+		isRes := func(v ssa.Value) bool {
+			if an.TypeName(v.Type()) != want {
+				return false
+			}
+			for i := 0; i < 4; i++ {
+				switch x := v.(type) {
+				case *ssa.Extract:
+					if call, isCall := x.Tuple.(*ssa.Call); isCall && call.Call.StaticCallee() == getCurr {
+						return !tuple || x.Index == idx
+					}
+					return false
+				case *ssa.Field:
+					v = x.X
+				case *ssa.UnOp:
+					// field of a struct-typed local holding the result
+					fa, isFA := x.X.(*ssa.FieldAddr)
+					if x.Op != token.MUL || !isFA {
+						return false
+					}
+					al, isAl := fa.X.(*ssa.Alloc)
+					if !isAl || an.UniqueStore(al) == nil {
+						return false
+					}
+					v = an.UniqueStore(al)
+				case *ssa.Call:
+					return !tuple && x.Call.StaticCallee() == getCurr
+				default:
+					return false
+				}
+			}
+			return false
+		}
+		switch s.Kind {
+		case an.KExtract, an.KField:
+			top := s
+			for i := 0; i < 4 && (s.Kind == an.KExtract || s.Kind == an.KField); i++ {
+				s = s.Args[0]
+			}
+			if call, isCall := s.V.(*ssa.Call); s.Kind == an.KOpaque && isCall && call.Call.StaticCallee() == getCurr {
+				return !tuple || (top.Kind == an.KExtract && top.Index == idx), true
+			}
+			return false, true
+		case an.KInit:
+			if len(s.Args) != 1 {
+				return false, false
+			}
+			var stores []*ssa.Store
+			if f := s.Args[0].Field; f != "" {
+				// a struct field: every store into that field anywhere in the package
+				for _, fn := range pkgFuncs {
+					for _, in := range an.Instrs(fn, false) {
+						if st, isSt := in.(*ssa.Store); isSt {
+							if fa, isFA := st.Addr.(*ssa.FieldAddr); isFA && an.FieldKey(fa.X.Type(), fa.Field) == f {
+								stores = append(stores, st)
+							}
+						}
+					}
+				}
+			} else if al := c16VarCell(s.Args[0]); al != nil {
+				if an.AddrEscapes(al) {
+					return false, false
+				}
+				stores = an.AllStores(al)
+			} else {
+				return false, false
+			}
+			if len(stores) == 0 {
+				return false, false
+			}
+			for _, st := range stores {
+				if !isRes(st.Val) {
+					return false, true
+				}
+			}
+			return true, true
+		case an.KOpaque:
+			if s.ID == 0 {
+				return isRes(s.V), isRes(s.V)
+			}
+			return false, true
+		case an.KParam:
+			return false, false
+		}
+		return false, true
+	}
+	isDeadlineChan := func(s *an.Sym) bool { return s.FieldName() == dlnr+".deadlineChan" }
 
 	c.Rule("N1", 4, func() {
-		if outer == nil {
-			c.Bail("run: event select with the inputChan case not found")
+		explore()
+		if tmIdx < 0 {
+			c.Bail("run: the event select has no case receiving from the timer's channel")
 		}
-		// all sends on deadlineChan, program-wide in package core
+		agg := newAgg(c)
+		// static sweep: every send on deadlineChan in package core
 		n := 0
-		for _, fn := range an.PkgFuncs(c.SSAPkg("core")) {
+		for _, fn := range pkgFuncs {
 			for _, in := range an.Instrs(fn, false) {
+				var chans []ssa.Value
 				switch x := in.(type) {
 				case *ssa.Send:
-					if k, _, ok := an.FieldOf(x.Chan); ok && k == dlnr+".deadlineChan" {
-						n++
-						c.Bad(an.FuncName(fn)+" send deadlineChan", x.Pos(), "expiry channel written outside the timer case of deadliner.run (blocking send)")
-					}
+					chans = append(chans, x.Chan)
 				case *ssa.Select:
-					for i, st := range x.States {
-						k, _, ok := an.FieldOf(st.Chan)
-						if !ok || k != dlnr+".deadlineChan" || st.Dir != types.SendOnly {
-							continue
+					for _, st := range x.States {
+						if st.Dir == types.SendOnly {
+							chans = append(chans, st.Chan)
 						}
+					}
+				}
+				for _, ch := range chans {
+					if k, _, ok := an.FieldOf(an.Resolve(ch)); ok && k == dlnr+".deadlineChan" {
 						n++
-						good, why := fn == run, "expiry channel written outside deadliner.run"
-						if good {
-							// inside the timer case of the event select
-							tIdx := -1
-							for j, os := range outer.States {
-								if call, ok := os.Chan.(*ssa.Call); ok && call.Call.IsInvoke() && call.Call.Method.Name() == "Chan" {
-									tIdx = j
-								}
-							}
-							good, why = false, "send is not confined to the timer case of the event select"
-							if tIdx >= 0 {
-								for _, cd := range an.CondsOn(run, selIndex(outer)) {
-									if k, ok := an.ConstInt(cd.Other); ok && int(k) == tIdx && cd.Op == token.EQL && cd.Succ(true).Dominates(x.Block()) {
-										good = true
-									}
-								}
-							}
+						if !actor[fn] {
+							agg.bad(an.FuncName(fn)+" send deadlineChan in timer case", posOf(in), "expiry channel written outside the deadliner.run goroutine")
+						} else {
+							covered(agg, an.FuncName(fn)+" send deadlineChan in timer case", in)
 						}
-						c.Check(an.FuncName(fn)+" send deadlineChan in timer case", st.Pos, good, why)
-						// value sent = the duty chosen by getCurrDuty
-						c.Check(an.FuncName(fn)+" sent duty is getCurrDuty's", st.Pos, c16FromGetCurr(x.States[i].Send, 0),
-							"the reported duty is not the one selected by getCurrDuty")
 					}
 				}
 			}
 		}
+		// dynamic: every attempted send on the expiry channel happens in the timer case, with the duty chosen by getCurrDuty
+		for _, it := range iters {
+			for _, e := range it.p.Evs[it.selPos+1:] {
+				var sent []*an.Sym
+				switch e.Kind {
+				case "send":
+					if isDeadlineChan(e.Args[0]) {
+						sent = append(sent, e.Args[1])
+					}
+				case "select":
+					for _, st := range e.States {
+						if st.Dir == types.SendOnly && isDeadlineChan(st.Chan) {
+							sent = append(sent, st.Send)
+						}
+					}
+				}
+				for _, v := range sent {
+					n++
+					name := an.FuncName(e.Fn)
+					agg.check(name+" send deadlineChan in timer case", posOf(e.In), it.sel.Chosen == tmIdx,
+						"an expiry is sent in the "+caseName(it.sel.Chosen)+" case of the event select: send is not confined to the timer case")
+					ok, decided := fromGetCurr(v, 0)
+					switch {
+					case !decided:
+						agg.unsure(name+" sent duty is getCurrDuty's", posOf(e.In), "cannot trace the origin of the reported duty ("+v.Key()+")")
+					default:
+						agg.check(name+" sent duty is getCurrDuty's", posOf(e.In), ok, "the reported duty is not the one selected by getCurrDuty")
+					}
+				}
+			}
+			// sends before the select of the same iteration (outside any case)
+			for _, e := range it.p.Evs[:it.selPos] {
+				if e.Kind == "send" && isDeadlineChan(e.Args[0]) {
+					agg.bad(an.FuncName(e.Fn)+" send deadlineChan in timer case", posOf(e.In), "an expiry is sent outside the timer case of the event select")
+				}
+			}
+		}
+		agg.flush()
 		if n == 0 {
 			c.Bail("no send on deadlineChan found")
 		}
-		// ownership: no goroutine is started from run, closures are only called/deferred directly
-		for _, fn := range all {
-			for _, in := range an.Instrs(fn, false) {
-				if g, ok := in.(*ssa.Go); ok {
-					c.Bad(an.FuncName(fn)+" starts goroutine", g.Pos(), "deadliner.run shares its duty set/timer with another goroutine")
-				}
-				if mc, ok := in.(*ssa.MakeClosure); ok {
-					direct := true
-					for _, ref := range *mc.Referrers() {
-						ci, isCall := ref.(ssa.CallInstruction)
-						if !isCall || ci.Common().Value != ssa.Value(mc) {
-							direct = false
-						}
-					}
-					c.Check(an.FuncName(fn)+" closure "+an.FuncName(mc.Fn.(*ssa.Function))+" stays local", mc.Pos(), direct,
-						"a closure over the duty set/timer escapes deadliner.run")
-				}
+		// ownership: no goroutine is started from the actor; its function literals only run synchronously inside it
+		for _, fn := range pkgFuncs {
+			if fn.Parent() == nil {
+				continue
+			}
+			top := fn
+			for top.Parent() != nil {
+				top = top.Parent()
+			}
+			if !actor[top] {
+				continue
+			}
+			switch why := an.ClosureStaysLocal(fn); why {
+			case "":
+				c.Good(an.FuncName(top)+" closure "+an.FuncName(fn)+" stays local", fn.Pos(), "")
+			case "go":
+				c.Bad(an.FuncName(top)+" closure "+an.FuncName(fn)+" stays local", fn.Pos(), "a closure over the duty set/timer is started as a goroutine: deadliner.run shares its state")
+			default:
+				c.Unsure(an.FuncName(top)+" closure "+an.FuncName(fn)+" stays local", fn.Pos(), "cannot prove that the closure only runs on the run goroutine: "+why)
 			}
 		}
-		// run is started exactly once per deadliner, from the constructor
-		starts := 0
-		for _, fn := range an.PkgFuncs(c.SSAPkg("core")) {
+		for _, fn := range actorFns {
 			for _, in := range an.Instrs(fn, false) {
-				if ci, ok := in.(ssa.CallInstruction); ok && ci.Common().StaticCallee() == run {
-					starts++
-					_, isGo := in.(*ssa.Go)
-					_, fresh := an.Unwrap(ci.Common().Args[0]).(*ssa.Alloc)
-					c.Check(an.FuncName(fn)+" starts run", in.Pos(), isGo && fresh && an.FuncName(fn) == "core.newDeadliner",
-						"deadliner.run must be started once, as a goroutine, on the freshly constructed deadliner")
+				g, ok := in.(*ssa.Go)
+				if !ok {
+					continue
+				}
+				if mc, isMC := g.Call.Value.(*ssa.MakeClosure); isMC && mc.Fn.(*ssa.Function).Parent() != nil {
+					continue // reported above
+				}
+				c.Bad(an.FuncName(fn)+" starts goroutine", g.Pos(), "deadliner.run shares its duty set/timer with another goroutine")
+			}
+		}
+		// run is started exactly once per deadliner, as a goroutine on the freshly constructed value
+		starts := 0
+		for _, fn := range pkgFuncs {
+			for _, in := range an.Instrs(fn, false) {
+				ci, ok := in.(ssa.CallInstruction)
+				if !ok || ci.Common().StaticCallee() != run {
+					continue
+				}
+				starts++
+				_, isGo := in.(*ssa.Go)
+				if !isGo && fn.Parent() != nil && an.ClosureStaysLocal(fn) == "go" {
+					isGo = true // go func() { d.run(...) }()
+				}
+				fresh, decided := c16Fresh(ci.Common().Args[0], 0)
+				name := an.FuncName(fn) + " starts run"
+				switch {
+				case !isGo:
+					c.Bad(name, in.Pos(), "deadliner.run must be started as a goroutine (it never returns before the context is cancelled)")
+				case !decided:
+					c.Unsure(name, in.Pos(), "cannot decide whether run is started on a freshly constructed deadliner")
+				default:
+					c.Check(name, in.Pos(), fresh, "deadliner.run must be started once, as a goroutine, on the freshly constructed deadliner")
 				}
 			}
 		}
@@ -169,470 +681,618 @@ func c16(c *rt.Ctx) {
 	})
 
 	c.Rule("N2", 9, func() {
-		if len(setUps) == 0 {
-			c.Bail("no insertion into the duty set found")
-		}
+		explore()
+		agg := newAgg(c)
 		scheduled, expired, exempt := constOf(c, "core", "DeadlineScheduled"), constOf(c, "core", "DeadlineExpired"), constOf(c, "core", "DeadlineExempt")
-		sendsOf := func(v int64) []*ssa.Send {
-			var out []*ssa.Send
-			for _, in := range an.Instrs(run, false) {
-				if s, ok := in.(*ssa.Send); ok {
-					if k, _, ok := an.FieldOf(s.Chan); ok && k == "core.deadlineInput.success" {
-						if n, ok := an.ConstInt(s.X); ok && n == v {
-							out = append(out, s)
-						}
-					}
-				}
-			}
-			return out
-		}
-		for _, up := range setUps {
-			// key is the registered duty: input.duty of the received input
-			keyOK := false
-			if k, base, ok := an.FieldOf(up.Key); ok && k == "core.deadlineInput.duty" {
-				if al, isAl := base.(*ssa.Alloc); isAl && an.UniqueStore(al) != nil {
-					base = an.UniqueStore(al)
-				}
-				keyOK = valueFromSelectRecv(base, outer)
-			}
-			c.Check("run insert key is the registered duty", posOf(up), keyOK, "the set is not keyed by the duty received on inputChan (re-adding would not be idempotent)")
-			// deadlineFunc(input.duty): canExpire true edge and not-before-now edge dominate
-			var df *ssa.Call
-			for _, in := range an.Instrs(run, false) {
-				if call, ok := in.(*ssa.Call); ok && !call.Call.IsInvoke() && call.Call.StaticCallee() == nil && an.Resolve(call.Call.Value) == ssa.Value(run.Params[2]) &&
-					an.Dominates(call, up) && an.Equiv(call.Call.Args[0], up.Key) {
-					df = call
-				}
-			}
-			if df == nil {
-				c.Bad("run insert after deadlineFunc", posOf(up), "insertion is not preceded by deadlineFunc on the same duty")
+		dutyIdx, succIdx := fieldIndexOf(c, "core", "deadlineInput", "duty"), fieldIndexOf(c, "core", "deadlineInput", "success")
+		// static: insertions into a duty-keyed map in the actor
+		nIns := 0
+		for _, fn := range actorFns {
+			if fn == getCurr {
 				continue
 			}
-			g, why := an.Guarded(df, up, an.GuardOpt{BoolIdx: 1, BoolWant: true, NoErr: true})
-			c.Check("run insert only if the duty can expire", posOf(up), g, "never-expiring duty can enter the set: "+why)
-			// expiry test: Before(deadline, now) true edge leaves
-			var dl ssa.Value
-			for _, ref := range *df.Referrers() {
-				if ex, ok := ref.(*ssa.Extract); ok && ex.Index == 0 {
-					dl = ex
+			for _, in := range an.Instrs(fn, false) {
+				if mu, ok := in.(*ssa.MapUpdate); ok && isDutyKeyedMap(mu.Map.Type()) {
+					nIns++
+					covered(agg, "run insert only if the duty can expire", in)
 				}
 			}
-			good := false
-			for _, in := range an.Instrs(run, false) {
-				call, ok := in.(*ssa.Call)
-				if !ok || !an.Static("time.Time.Before")(&call.Call) || !an.Dominates(call, up) || !c16LoadsOf(call.Call.Args[0], dl) {
-					continue
+		}
+		if nIns == 0 {
+			c.Bail("no insertion into the duty set found")
+		}
+		seenInsert := false
+		for _, it := range iters {
+			p := it.p
+			evs := p.Evs
+			isInput := it.sel.Chosen == inIdx
+			var inp *an.Sym
+			if isInput {
+				inp = it.sel.States[inIdx].Recv
+			}
+			facts := lessFacts(p)
+			type dfCall struct {
+				pos int
+				arg *an.Sym
+				res *an.Sym
+			}
+			var dfs []dfCall
+			type reply struct {
+				pos int
+				val int64
+				ok  bool
+				in  ssa.Instruction
+			}
+			var replies []reply
+			var inserts []int
+			recompute := func(after int) bool {
+				g := -1
+				for i := after + 1; i < len(evs); i++ {
+					e := evs[i]
+					if e.Kind == "call" && e.Callee == getCurr && g < 0 {
+						g = i
+					}
+					if g >= 0 && e.Kind == "call" && isInvokeOf(valueOf(e.In), clockT, "NewTimer") {
+						return true
+					}
 				}
-				if now, ok := an.Unwrap(call.Call.Args[1]).(*ssa.Call); !ok || !now.Call.IsInvoke() || now.Call.Method.Name() != "Now" {
-					continue
-				}
-				for _, cd := range an.CondsOn(run, call) {
-					if cd.Other == nil && an.EdgeCuts(cd.Succ(true), up, map[*ssa.BasicBlock]bool{call.Block(): true}) {
-						good = true
-						// the Expired reply is on that edge
-						rep := false
-						for _, s := range sendsOf(expired) {
-							if cd.Succ(true).Dominates(s.Block()) {
-								rep = true
-							}
-						}
-						c.Check("run late registration answered DeadlineExpired", call.Pos(), rep, "a duty registered after its deadline is not answered DeadlineExpired")
+				return false
+			}
+			for i := it.selPos + 1; i < len(evs); i++ {
+				e := evs[i]
+				switch e.Kind {
+				case "call":
+					if call, ok := e.In.(*ssa.Call); ok && !call.Call.IsInvoke() && call.Call.StaticCallee() == nil &&
+						an.TypeName(call.Call.Value.Type()) == "core.DeadlineFunc" && len(e.Args) == 1 {
+						dfs = append(dfs, dfCall{i, e.Args[0], e.Res})
+					}
+				case "send":
+					ch := e.Args[0]
+					if inp != nil && ch.Kind == an.KField && ch.Index == succIdx && an.SymEq(ch.Args[0], inp) {
+						v, ok := e.Args[1].IsConstInt()
+						replies = append(replies, reply{i, v, ok, e.In})
+					}
+				case "mapupdate":
+					if mu := e.In.(*ssa.MapUpdate); isDutyKeyedMap(mu.Map.Type()) && actor[e.Fn] {
+						inserts = append(inserts, i)
 					}
 				}
 			}
-			c.Check("run insert only before the deadline", posOf(up), good, "a duty whose deadline has passed can enter the set (it would be reported although refused)")
-			// Scheduled reply dominates the insertion; Exempt reply on the !canExpire edge
-			rep := false
-			for _, s := range sendsOf(scheduled) {
-				if an.Dominates(s, up) {
-					rep = true
+			if !isInput {
+				for _, i := range inserts {
+					agg.bad("run insert key is the registered duty", posOf(evs[i].In), "a duty enters the set in the "+caseName(it.sel.Chosen)+" case of the event select, not as a registration received on inputChan")
 				}
+				continue
 			}
-			c.Check("run Scheduled reply precedes insertion", posOf(up), rep, "the status reply does not precede scheduling")
-			for _, s := range append(sendsOf(exempt), sendsOf(expired)...) {
-				c.Check("run refusal reply cannot reach insertion", s.Pos(), !an.CanReach(s.Block(), up.Block(), map[*ssa.BasicBlock]bool{outer.Block(): true}),
-					"after answering Exempt/Expired the duty can still be inserted")
-			}
-			rex := false
-			for _, s := range sendsOf(exempt) {
-				for _, cd := range an.CondsOn(run, c16Extract(df, 1)) {
-					if cd.Other == nil && cd.Succ(false).Dominates(s.Block()) {
-						rex = true
+			hasReply := func(v int64) bool {
+				for _, r := range replies {
+					if r.ok && r.val == v {
+						return true
 					}
 				}
+				return false
 			}
-			c.Check("run never-expiring duty answered DeadlineExempt", df.Pos(), rex, "a duty that never expires is not answered DeadlineExempt")
-			// re-arm: after the insertion, Before(deadline, currDeadline) true edge calls the closure that re-reads getCurrDuty
-			rearm := false
-			for _, in := range an.Instrs(run, false) {
-				call, ok := in.(*ssa.Call)
-				if !ok || !an.Static("time.Time.Before")(&call.Call) || !an.Dominates(up, call) || !c16LoadsOf(call.Call.Args[0], dl) ||
-					!c16FromGetCurr(call.Call.Args[1], 1) {
-					continue
+			for _, r := range replies {
+				if !r.ok {
+					agg.unsure("run registration answered exactly once", posOf(r.in), "the status sent to the caller is not a constant on this path")
 				}
-				for _, cd := range an.CondsOn(run, call) {
-					if cd.Other != nil || cd.Neg {
+			}
+			// the registration's own deadline: deadlineFunc applied to the received duty
+			regDuty := &an.Sym{Kind: an.KField, Args: []*an.Sym{inp}, Index: dutyIdx}
+			var df *dfCall
+			for j := range dfs {
+				if an.SymEq(dfs[j].arg, regDuty) {
+					df = &dfs[j]
+					break
+				}
+			}
+			var dl, canExp *an.Sym
+			if df != nil {
+				dl = &an.Sym{Kind: an.KExtract, Args: []*an.Sym{df.res}, Index: 0}
+				canExp = &an.Sym{Kind: an.KExtract, Args: []*an.Sym{df.res}, Index: 1}
+			}
+			// expiry test: (deadline earlier than now) with now read from the clock after the registration arrived
+			idx := h1617Index(p)
+			var expFact *lessFact
+			stale := false
+			if dl != nil {
+				for j := range facts {
+					f := &facts[j]
+					if !an.SymEq(f.x, dl) {
 						continue
 					}
-					for _, in2 := range cd.Succ(true).Instrs {
-						if ci, ok := in2.(*ssa.Call); ok {
-							if mc, ok := ci.Call.Value.(*ssa.MakeClosure); ok && len(an.Calls(mc.Fn.(*ssa.Function), an.Static("core.getCurrDuty"), false)) > 0 {
-								rearm = true
-							}
-						}
+					if !isInvokeOf(f.y.V, clockT, "Now") || f.y.Kind != an.KOpaque {
+						continue
 					}
+					if at, onPath := idx[f.y]; !onPath || f.y.ID == 0 || at < it.selPos {
+						stale = true
+						if expFact == nil {
+							expFact = f
+						}
+						continue
+					}
+					expFact, stale = f, false
+					break
 				}
 			}
-			c.Check("run re-arms the timer for an earlier deadline", posOf(up), rearm, "a newly registered earlier deadline does not re-arm the timer (it would be reported late, after a later duty)")
-		}
-	})
-
-	c.Rule("N3", 1, func() {
-		n := 0
-		for _, fn := range all {
-			for _, in := range an.Instrs(fn, false) {
-				call, ok := in.(*ssa.Call)
-				if !ok {
+			for _, i := range inserts {
+				seenInsert = true
+				e := evs[i]
+				pos := posOf(e.In)
+				agg.check("run insert key is the registered duty", pos, an.SymEq(e.Args[1], regDuty),
+					"the set is not keyed by the duty received on inputChan (re-adding would not be idempotent)")
+				if df == nil || df.pos > i {
+					agg.bad("run insert only if the duty can expire", pos, "never-expiring duty can enter the set: insertion is not preceded by deadlineFunc on the registered duty")
+					agg.bad("run insert only before the deadline", pos, "a duty whose deadline has passed can enter the set: insertion is not preceded by deadlineFunc on the registered duty")
 					continue
 				}
-				b, ok := call.Call.Value.(*ssa.Builtin)
-				if !ok || (b.Name() != "delete" && b.Name() != "clear") {
-					continue
+				t, known := boolFact(p, canExp, i)
+				agg.check("run insert only if the duty can expire", pos, known && t, "never-expiring duty can enter the set: the insertion is reached without deadlineFunc's second result having been tested true")
+				good := expFact != nil && expFact.pos < i && !expFact.truth
+				if !good && expFact == nil && branchDependsOn(p, dl, df.pos, i) {
+					agg.unsure("run insert only before the deadline", pos, "the insertion is guarded by a test of the deadline that is not a recognised `deadline.Before(clock.Now())` comparison")
+				} else {
+					agg.check("run insert only before the deadline", pos, good, "a duty whose deadline has passed can enter the set (it would be reported although refused): no `deadline.Before(clock.Now())` test decided false before the insertion")
 				}
-				if m, ok := call.Call.Args[0].Type().Underlying().(*types.Map); !ok || an.TypeName(m.Key()) != "core.Duty" {
-					continue
+				if expFact != nil {
+					agg.check("run expiry test reads the clock after the registration arrived", posOf(evs[expFact.pos].In), !stale,
+						"the already-expired test compares the deadline with a clock value read before the event select blocked: a registration arriving after its deadline is answered Scheduled and reported")
 				}
-				n++
-				// find the select with the send state of deadlineChan dominating this delete
-				var sel *ssa.Select
-				sendIdx := -1
-				for _, in2 := range an.Instrs(fn, false) {
-					if s, ok := in2.(*ssa.Select); ok && an.Dominates(s, call) {
-						for i, st := range s.States {
-							if k, _, ok := an.FieldOf(st.Chan); ok && k == dlnr+".deadlineChan" && st.Dir == types.SendOnly && an.Equiv(st.Send, call.Call.Args[1]) {
-								sel, sendIdx = s, i
-							}
+				sched := false
+				for _, r := range replies {
+					if r.ok && r.val == scheduled && r.pos < i {
+						sched = true
+					}
+				}
+				agg.check("run Scheduled reply precedes insertion", pos, sched, "the status reply does not precede scheduling")
+				for _, r := range replies {
+					if r.ok && (r.val == exempt || r.val == expired) {
+						agg.bad("run refusal reply cannot reach insertion", posOf(r.in), "after answering Exempt/Expired the duty can still be inserted")
+					}
+				}
+				// re-arm: a deadline earlier than the armed one recomputes the timer state before the next event
+				var armed *lessFact
+				for j := range facts {
+					f := &facts[j]
+					if f.pos > i && an.SymEq(f.x, dl) {
+						if ok, _ := fromGetCurr(f.y, 1); ok {
+							armed = f
 						}
 					}
 				}
-				where := "timer"
-				if sel == nil {
-					if len(setUps) > 0 && an.Dominates(call, setUps[0]) || true {
-						where = "input"
-					}
-					c.Bad("run delete(duties) without report ("+where+")", call.Pos(), "a duty is removed from the set without its expiry having been sent on the expiry channel")
-					continue
+				switch {
+				case recompute(i):
+					agg.ok("run re-arms the timer for an earlier deadline", pos)
+				case armed != nil && !armed.truth:
+					agg.ok("run re-arms the timer for an earlier deadline", pos)
+				case !iterEnd(p):
+					agg.ok("run re-arms the timer for an earlier deadline", pos)
+				case unresolvedLocalCall(evs, i):
+					agg.unsure("run re-arms the timer for an earlier deadline", pos, "a call through an unresolved function value follows the insertion")
+				case armed == nil && branchDependsOn(p, dl, i, len(evs)):
+					agg.unsure("run re-arms the timer for an earlier deadline", pos, "after the insertion the deadline is tested by a comparison that is not a recognised `deadline.Before(currDeadline)`")
+				default:
+					agg.bad("run re-arms the timer for an earlier deadline", pos, "a newly registered earlier deadline does not re-arm the timer (it would be reported late, after a later duty)")
 				}
-				path, undelivered := c16UndeliveredPath(sel, sendIdx, call.Block())
-				c.Check("run delete(duties) only after delivered report", call.Pos(), !undelivered,
-					"the expired duty is deleted on a path on which its report was not delivered (select falls through without sending): "+an.PathString(c.P, path))
+			}
+			if stale && expFact != nil && len(inserts) == 0 {
+				agg.check("run expiry test reads the clock after the registration arrived", posOf(evs[expFact.pos].In), false,
+					"the already-expired test compares the deadline with a clock value read before the event select blocked: a registration arriving after its deadline is answered Scheduled and reported")
+			}
+			// refusals: decided outcomes are answered with the matching status and never scheduled
+			if df != nil {
+				dfPos := posOf(evs[df.pos].In)
+				if t, known := boolFact(p, canExp, len(evs)); known && !t {
+					agg.check("run never-expiring duty answered DeadlineExempt", dfPos, hasReply(exempt) || !iterEnd(p), "a duty that never expires is not answered DeadlineExempt")
+				} else {
+					agg.ok("run never-expiring duty answered DeadlineExempt", dfPos)
+				}
+				if expFact != nil && expFact.truth {
+					agg.check("run late registration answered DeadlineExpired", posOf(evs[expFact.pos].In), hasReply(expired) || !iterEnd(p), "a duty registered after its deadline is not answered DeadlineExpired")
+					for _, r := range replies {
+						if r.ok && r.val != expired {
+							agg.bad("run late registration answered DeadlineExpired", posOf(evs[expFact.pos].In), "a duty registered after its deadline is answered with another status")
+						}
+					}
+				} else if expFact != nil {
+					agg.ok("run late registration answered DeadlineExpired", posOf(evs[expFact.pos].In))
+				}
+			}
+			for _, r := range replies {
+				if r.ok && (r.val == exempt || r.val == expired) {
+					agg.ok("run refusal reply cannot reach insertion", posOf(r.in))
+				}
+			}
+			if iterEnd(p) {
+				agg.check("run registration answered exactly once", posOf(evSel), len(replies) == 1,
+					"a registration is answered "+itoa(len(replies))+" times on a path through the input case (the caller of Add blocks or a second send blocks the run goroutine)")
+			}
+		}
+		if !seenInsert {
+			c.Bail("no path through the input case inserts into the duty set")
+		}
+		agg.flush()
+	})
+
+	// removals from the duty set, shared by N3 and N5
+	type removal struct {
+		it  c16Iter
+		pos int
+	}
+	removals := func(agg *h1617Agg, what string) []removal {
+		n := 0
+		for _, fn := range actorFns {
+			for _, in := range an.Instrs(fn, false) {
+				if call, ok := in.(*ssa.Call); ok {
+					if b, ok := call.Call.Value.(*ssa.Builtin); ok && (b.Name() == "delete" || b.Name() == "clear") && isDutyKeyedMap(call.Call.Args[0].Type()) {
+						n++
+						covered(agg, what, in)
+					}
+				}
 			}
 		}
 		if n == 0 {
 			c.Bail("no removal from the duty set found")
 		}
+		var out []removal
+		for _, it := range iters {
+			for i, e := range it.p.Evs {
+				if e.Kind != "builtin" || (e.Name != "delete" && e.Name != "clear") || !actor[e.Fn] {
+					continue
+				}
+				if call, ok := e.In.(*ssa.Call); ok && isDutyKeyedMap(call.Call.Args[0].Type()) {
+					out = append(out, removal{it, i})
+				}
+			}
+		}
+		return out
+	}
+
+	c.Rule("N3", 1, func() {
+		explore()
+		agg := newAgg(c)
+		for _, r := range removals(agg, "run delete(duties) only after delivered report") {
+			evs := r.it.p.Evs
+			e := evs[r.pos]
+			where := caseName(r.it.sel.Chosen)
+			if r.pos < r.it.selPos {
+				where = "before the select"
+			}
+			if e.Name == "clear" {
+				agg.bad("run delete(duties) without report ("+where+")", posOf(e.In), "the whole duty set is cleared without the expiries having been sent on the expiry channel")
+				continue
+			}
+			key := e.Args[1]
+			attempted, delivered := false, false
+			for i := 0; i < r.pos; i++ {
+				x := evs[i]
+				switch x.Kind {
+				case "send":
+					if isDeadlineChan(x.Args[0]) && an.SymEq(x.Args[1], key) {
+						attempted, delivered = true, true
+					}
+				case "select":
+					for j, st := range x.States {
+						if st.Dir == types.SendOnly && isDeadlineChan(st.Chan) && an.SymEq(st.Send, key) {
+							attempted = true
+							if x.Chosen == j {
+								delivered = true
+							}
+						}
+					}
+				}
+			}
+			switch {
+			case !attempted:
+				agg.bad("run delete(duties) without report ("+where+")", posOf(e.In), "a duty is removed from the set without its expiry having been sent on the expiry channel")
+			default:
+				agg.check("run delete(duties) only after delivered report", posOf(e.In), delivered,
+					"the expired duty is deleted on a path on which its report was not delivered (select falls through without sending)")
+			}
+		}
+		agg.flush()
 	})
 
 	c.Rule("N5", 1, func() {
 		// after an expired duty is removed from the set, the timer state (current duty, deadline, timer) is
 		// recomputed on every path back to the event loop: otherwise the stale, past deadline stays armed and no
 		// later registration can re-arm it (N2 only re-arms for a deadline earlier than the current one)
-		n := 0
-		for _, in := range an.Instrs(run, false) {
-			call, ok := in.(*ssa.Call)
-			if !ok {
+		explore()
+		agg := newAgg(c)
+		for _, r := range removals(agg, "run delete(duties)→recompute timer state") {
+			evs := r.it.p.Evs
+			e := evs[r.pos]
+			if !iterEnd(r.it.p) {
+				agg.ok("run delete(duties)→recompute timer state", posOf(e.In))
 				continue
 			}
-			b, ok := call.Call.Value.(*ssa.Builtin)
-			if !ok || b.Name() != "delete" {
-				continue
-			}
-			if m, ok := call.Call.Args[0].Type().Underlying().(*types.Map); !ok || an.TypeName(m.Key()) != "core.Duty" {
-				continue
-			}
-			n++
-			l := an.InnermostLoop(run, call.Block())
-			opt := an.PassOpt{}
-			if l != nil {
-				opt.StopAt = func(b *ssa.BasicBlock) bool { return b == l.Header }
-			}
-			path, esc := an.EscapePath(call, func(x ssa.Instruction) bool {
-				ci, ok := x.(*ssa.Call)
-				if !ok {
-					return false
+			g, done := -1, false
+			for i := r.pos + 1; i < len(evs); i++ {
+				x := evs[i]
+				if x.Kind == "call" && x.Callee == getCurr && g < 0 {
+					g = i
 				}
-				mc, ok := ci.Call.Value.(*ssa.MakeClosure)
-				if !ok {
-					return false
+				if g >= 0 && x.Kind == "call" && isInvokeOf(valueOf(x.In), clockT, "NewTimer") {
+					done = true
 				}
-				f := mc.Fn.(*ssa.Function)
-				return len(an.Calls(f, an.Static("core.getCurrDuty"), false)) > 0 && len(an.Calls(f, an.Invoke("github.com/jonboulle/clockwork.Clock.NewTimer"), false)) > 0
-			}, opt)
-			c.Check("run delete(duties)→recompute timer state", call.Pos(), !esc,
-				"after removing the expired duty the next duty/deadline/timer are not recomputed on path "+an.PathString(c.P, path)+": the stale deadline stays current and later registrations never arm a timer")
+			}
+			if !done && unresolvedLocalCall(evs, r.pos) {
+				agg.unsure("run delete(duties)→recompute timer state", posOf(e.In), "a call through an unresolved function value follows the removal")
+				continue
+			}
+			agg.check("run delete(duties)→recompute timer state", posOf(e.In), done,
+				"after removing the expired duty the next duty/deadline/timer are not recomputed before the next event: the stale deadline stays current and later registrations never arm a timer")
 		}
-		if n == 0 {
-			c.Bail("no removal from the duty set found")
-		}
+		agg.flush()
 	})
 
-	c.Rule("N4", 2, func() {
-		fn := c.Fn("core.getCurrDuty")
-		rets := an.Returns(fn)
-		if len(rets) != 1 || len(rets[0].Results) != 2 {
-			c.Bail("getCurrDuty: unexpected shape")
+	c.Rule("N4", 3, func() {
+		// getCurrDuty, path by path (up to three iterations of its loop): in every iteration that considers a duty
+		// the candidate's deadline is compared with the current minimum; the current minimum before an iteration is
+		// the operand of that comparison, the minimum after the last one is the result. Each step must follow the
+		// decided comparison, and the duty returned must be the one whose deadline is returned.
+		fn := getCurr
+		tr := &an.Tracer{Root: fn, MaxVisits: 4}
+		r4 := tr.Run()
+		h1617Dump("C16 getCurrDuty", r4)
+		if r4.Truncated || len(r4.Paths) == 0 {
+			c.Bail("getCurrDuty: path enumeration failed")
 		}
-		dutyPhi, okD := rets[0].Results[0].(*ssa.Phi)
-		dlPhi, okL := rets[0].Results[1].(*ssa.Phi)
-		if !okD || !okL {
-			c.Bail("getCurrDuty: results are not loop-carried values")
+		agg := newAgg(c)
+		together, minimum, exempt := "getCurrDuty updates duty and deadline together", "getCurrDuty selects the earliest deadline", "getCurrDuty ignores never-expiring duties"
+		iterations, unreadable := 0, false
+		type step struct {
+			cand, cdl *an.Sym // candidate duty and its deadline
+			cur       *an.Sym // current minimum before the step (other operand of the comparison)
+			strict    bool    // fact is (cand earlier than cur); otherwise (cur earlier than cand)
+			truth     bool
+			okKnown   bool // deadlineFunc's second result was decided true before the comparison
 		}
-		// the update block: where both phis take their new values
-		upd := map[*ssa.BasicBlock][2]ssa.Value{}
-		var walk func(p *ssa.Phi, idx int, seen map[*ssa.Phi]bool)
-		walk = func(p *ssa.Phi, idx int, seen map[*ssa.Phi]bool) {
-			if seen[p] {
-				return
+		for _, p := range r4.Paths {
+			if p.End != "return" {
+				continue
 			}
-			seen[p] = true
-			for i, e := range p.Edges {
-				switch x := e.(type) {
-				case *ssa.Phi:
-					walk(x, idx, seen)
-				case *ssa.Const:
-				default:
-					if _, isCall := e.(*ssa.Call); isCall && idx == 1 {
-						continue // initial far-future deadline
-					}
-					u := upd[p.Block().Preds[i]]
-					u[idx] = e
-					upd[p.Block().Preds[i]] = u
-				}
+			resDuty, resDl := n4Results(fn, p)
+			if resDuty == nil || resDl == nil {
+				agg.unsure(together, fn.Pos(), "cannot read the results of getCurrDuty on a path")
+				unreadable = true
+				continue
 			}
-		}
-		walk(dutyPhi, 0, map[*ssa.Phi]bool{})
-		walk(dlPhi, 1, map[*ssa.Phi]bool{})
-		together := len(upd) > 0
-		for _, u := range upd {
-			if u[0] == nil || u[1] == nil {
-				together = false
-			}
-		}
-		c.Check("getCurrDuty updates duty and deadline together", fn.Pos(), together, "the selected duty and the selected deadline are not updated on the same edges (they can refer to different duties)")
-		// min selection: the update edge is the true edge of After(currMin, candidate) (or Before(candidate, currMin))
-		min := false
-		for b, u := range upd {
-			for _, in := range an.Instrs(fn, false) {
-				call, ok := in.(*ssa.Call)
-				if !ok {
+			facts := lessFacts(p)
+			evs := p.Evs
+			var steps []step
+			undecided := false
+			for i, e := range evs {
+				if e.Kind != "next" {
 					continue
 				}
-				isAfter, isBefore := an.Static("time.Time.After")(&call.Call), an.Static("time.Time.Before")(&call.Call)
-				if !isAfter && !isBefore {
-					continue
-				}
-				recv, arg := call.Call.Args[0], call.Call.Args[1]
-				if isBefore {
-					recv, arg = arg, recv
-				}
-				// recv = current minimum (phi), arg = candidate deadline == u[1]
-				if _, isPhi := an.Unwrap(recv).(*ssa.Phi); !isPhi || !an.Equiv(arg, u[1]) {
-					continue
-				}
-				for _, cd := range an.CondsOn(fn, call) {
-					if cd.Other == nil && (cd.Succ(true) == b || cd.Succ(true).Dominates(b)) && !an.CanReach(cd.Succ(false), b, map[*ssa.BasicBlock]bool{call.Block(): true}) {
-						min = true
+				end := len(evs)
+				for j := i + 1; j < len(evs); j++ {
+					if evs[j].Kind == "next" {
+						end = j
+						break
 					}
 				}
+				okSym := &an.Sym{Kind: an.KExtract, Args: []*an.Sym{e.Res}, Index: 0}
+				if t, known := boolFact(p, okSym, end); !known || !t {
+					continue // loop exit
+				}
+				iterations++
+				cand := &an.Sym{Kind: an.KExtract, Args: []*an.Sym{e.Res}, Index: 1}
+				var dres *an.Sym
+				for j := i + 1; j < end; j++ {
+					x := evs[j]
+					if call, ok := x.In.(*ssa.Call); ok && x.Kind == "call" && !call.Call.IsInvoke() && call.Call.StaticCallee() == nil &&
+						an.TypeName(call.Call.Value.Type()) == "core.DeadlineFunc" && len(x.Args) == 1 && an.SymEq(x.Args[0], cand) {
+						dres = x.Res
+					}
+				}
+				if dres == nil {
+					agg.unsure(minimum, fn.Pos(), "an iteration does not compute the deadline of its candidate duty with deadlineFunc")
+					undecided = true
+					continue
+				}
+				cdl := &an.Sym{Kind: an.KExtract, Args: []*an.Sym{dres}, Index: 0}
+				cok := &an.Sym{Kind: an.KExtract, Args: []*an.Sym{dres}, Index: 1}
+				if t, known := boolFact(p, cok, end); known && !t {
+					continue // never-expiring duty skipped
+				}
+				var cmp *lessFact
+				for j := range facts {
+					f := &facts[j]
+					if f.pos > i && f.pos < end && (an.SymEq(f.x, cdl) || an.SymEq(f.y, cdl)) && cmp == nil {
+						cmp = f
+					}
+				}
+				if cmp == nil {
+					agg.unsure(minimum, fn.Pos(), "no time comparison of the candidate's deadline with the current minimum found in an iteration")
+					undecided = true
+					continue
+				}
+				st := step{cand: cand, cdl: cdl, truth: cmp.truth}
+				if an.SymEq(cmp.x, cdl) {
+					st.strict, st.cur = true, cmp.y
+				} else {
+					st.cur = cmp.x
+				}
+				t, known := boolFact(p, cok, cmp.pos+1)
+				st.okKnown = known && t
+				steps = append(steps, st)
 			}
-			// candidate deadline belongs to the candidate duty
-			if ex, ok := an.Unwrap(u[1]).(*ssa.Extract); ok {
-				if call, ok := ex.Tuple.(*ssa.Call); !ok || !an.Equiv(call.Call.Args[0], u[0]) {
-					min = false
+			if undecided {
+				continue
+			}
+			// replay: obs[k] is the minimum before step k, obs[len] the result
+			var selected *an.Sym // duty of the last step that replaced the minimum
+			bad := ""
+			for k, st := range steps {
+				next := resDl
+				if k+1 < len(steps) {
+					next = steps[k+1].cur
+				}
+				took := an.SymEq(next, st.cdl) && !an.SymEq(next, st.cur)
+				kept := an.SymEq(next, st.cur)
+				switch {
+				case !took && !kept:
+					bad = "after an iteration the current minimum is neither the previous minimum nor the candidate's deadline"
+				case st.strict && st.truth && !took:
+					bad = "a candidate whose deadline is earlier than the current minimum is not selected"
+				case st.strict && !st.truth && took:
+					bad = "a candidate whose deadline is not earlier than the current minimum is selected"
+				case !st.strict && st.truth && took:
+					bad = "a candidate whose deadline is later than the current minimum is selected"
+				}
+				if took {
+					selected = st.cand
+					agg.check(exempt, fn.Pos(), st.okKnown, "a duty that never expires (deadlineFunc's second result false) can be selected: its zero deadline is earlier than every real one and no timer would fire for the others")
+				}
+			}
+			agg.check(minimum, fn.Pos(), bad == "", "the duty chosen for the timer is not the one with the minimum deadline: "+bad)
+			if selected != nil {
+				agg.check(together, fn.Pos(), an.SymEq(resDuty, selected), "the selected duty and the selected deadline are not updated on the same edges (they can refer to different duties)")
+			} else {
+				for _, st := range steps {
+					if an.SymEq(resDuty, st.cand) {
+						agg.bad(together, fn.Pos(), "a duty is returned whose deadline was not selected (duty and deadline can refer to different duties)")
+					}
 				}
 			}
 		}
-		c.Check("getCurrDuty selects the earliest deadline", fn.Pos(), min, "the duty chosen for the timer is not the one with the minimum deadline")
+		if iterations == 0 && !unreadable {
+			c.Bail("getCurrDuty: no loop over the duty set found")
+		}
+		agg.ok(together, fn.Pos())
+		agg.ok(minimum, fn.Pos())
+		agg.ok(exempt, fn.Pos())
+		agg.flush()
 	})
 }
 
-// selIndex returns the index result (#0) of a select.
-func selIndex(s *ssa.Select) ssa.Value {
-	for _, ref := range *s.Referrers() {
-		if ex, ok := ref.(*ssa.Extract); ok && ex.Index == 0 {
-			return ex
+// c16VarCell resolves the address of a local variable to its cell: the Alloc itself, or for a captured variable
+// (free variable of a function literal, possibly nested) the Alloc it is bound to.
+func c16VarCell(addr *an.Sym) *ssa.Alloc {
+	v := addr.V
+	for i := 0; i < 4; i++ {
+		switch x := v.(type) {
+		case *ssa.Alloc:
+			return x
+		case *ssa.FreeVar:
+			fn := x.Parent()
+			if fn.Parent() == nil {
+				return nil
+			}
+			var bound ssa.Value
+			for j, fv := range fn.FreeVars {
+				if fv != x {
+					continue
+				}
+				for _, in := range an.Instrs(fn.Parent(), false) {
+					if mc, ok := in.(*ssa.MakeClosure); ok && mc.Fn == ssa.Value(fn) && j < len(mc.Bindings) {
+						if bound != nil && bound != mc.Bindings[j] {
+							return nil
+						}
+						bound = mc.Bindings[j]
+					}
+				}
+			}
+			if bound == nil {
+				return nil
+			}
+			v = bound
+		default:
+			return nil
 		}
 	}
 	return nil
 }
 
-func c16Extract(call *ssa.Call, idx int) ssa.Value {
-	for _, ref := range *call.Referrers() {
-		if ex, ok := ref.(*ssa.Extract); ok && ex.Index == idx {
-			return ex
+// n4Results returns the duty and the deadline a path of getCurrDuty returns: the two results, or the fields of
+// the matching types if the function returns one struct.
+func n4Results(fn *ssa.Function, p *an.Path) (duty, dl *an.Sym) {
+	switch len(p.Results) {
+	case 2:
+		return p.Results[0], p.Results[1]
+	case 1:
+		r := p.Results[0]
+		st, ok := fn.Signature.Results().At(0).Type().Underlying().(*types.Struct)
+		if !ok || r == nil || r.Kind != an.KStruct {
+			return nil, nil
 		}
-	}
-	return nil
-}
-
-// valueFromSelectRecv: v is a value received by a state of select sel.
-func valueFromSelectRecv(v ssa.Value, sel *ssa.Select) bool {
-	ex, ok := an.Unwrap(v).(*ssa.Extract)
-	return ok && sel != nil && ex.Tuple == ssa.Value(sel) && ex.Index >= 2
-}
-
-// c16LoadsOf: v is value dl or a load of a local that was assigned dl.
-func c16LoadsOf(v, dl ssa.Value) bool {
-	v = an.Unwrap(v)
-	if v == dl {
-		return true
-	}
-	if ld, ok := v.(*ssa.UnOp); ok && ld.Op == token.MUL {
-		if al, ok := ld.X.(*ssa.Alloc); ok {
-			for _, ref := range *al.Referrers() {
-				if st, ok := ref.(*ssa.Store); ok && st.Addr == ssa.Value(al) && st.Val == dl {
-					return true
-				}
+		for i := 0; i < st.NumFields(); i++ {
+			switch an.TypeName(st.Field(i).Type()) {
+			case "core.Duty":
+				duty = r.Fields[i]
+			case "time.Time":
+				dl = r.Fields[i]
 			}
 		}
 	}
-	return false
+	return duty, dl
 }
 
-// c16FromGetCurr: v is a load of a captured local every assignment of which is result #idx of getCurrDuty.
-func c16FromGetCurr(v ssa.Value, idx int) bool {
-	ld, ok := an.Unwrap(v).(*ssa.UnOp)
-	if !ok || ld.Op != token.MUL {
-		return false
-	}
-	var stores []*ssa.Store
-	switch x := ld.X.(type) {
+// valueOf returns the instruction as a value (nil if it has none).
+func valueOf(in ssa.Instruction) ssa.Value {
+	v, _ := in.(ssa.Value)
+	return v
+}
+
+// c16Fresh decides whether v is an object allocated here (or returned fresh by an in-package constructor).
+func c16Fresh(v ssa.Value, d int) (fresh, decided bool) {
+	v = an.Resolve(v)
+	switch x := v.(type) {
 	case *ssa.Alloc:
-		stores = c16StoresTo(x, x.Parent())
-	case *ssa.FreeVar:
-		// find the binding in the parent
-		par := x.Parent().Parent()
-		for _, in := range an.Instrs(par, false) {
-			if mc, ok := in.(*ssa.MakeClosure); ok && mc.Fn == ssa.Value(x.Parent()) {
-				for i, fv := range x.Parent().FreeVars {
-					if fv == x {
+		return true, true
+	case *ssa.Parameter, *ssa.Global:
+		return false, true
+	case *ssa.UnOp:
+		if x.Op != token.MUL {
+			return false, false
+		}
+		switch a := x.X.(type) {
+		case *ssa.FreeVar:
+			// captured variable: the variable of the enclosing function it is bound to
+			fn := a.Parent()
+			if fn.Parent() == nil || d > 3 {
+				return false, false
+			}
+			for i, fv := range fn.FreeVars {
+				if fv != a {
+					continue
+				}
+				for _, in := range an.Instrs(fn.Parent(), false) {
+					if mc, ok := in.(*ssa.MakeClosure); ok && mc.Fn == ssa.Value(fn) && i < len(mc.Bindings) {
 						if al, ok := mc.Bindings[i].(*ssa.Alloc); ok {
-							stores = c16StoresTo(al, par)
+							if stores := an.AllStores(al); len(stores) == 1 && !an.AddrEscapes(al) {
+								return c16Fresh(stores[0].Val, d+1)
+							}
 						}
 					}
 				}
 			}
+			return false, false
+		case *ssa.FieldAddr, *ssa.IndexAddr, *ssa.Global:
+			return false, true // loaded from shared state
 		}
-	}
-	if len(stores) == 0 {
-		return false
-	}
-	for _, st := range stores {
-		ex, ok := st.Val.(*ssa.Extract)
-		if !ok || ex.Index != idx {
-			return false
+		return false, false
+	case *ssa.Call:
+		f := x.Call.StaticCallee()
+		if f == nil || len(f.Blocks) == 0 || d > 3 {
+			return false, false
 		}
-		call, ok := ex.Tuple.(*ssa.Call)
-		if !ok || !an.Static("core.getCurrDuty")(&call.Call) {
-			return false
+		rets := an.Returns(f)
+		if len(rets) == 0 {
+			return false, false
 		}
-	}
-	return true
-}
-
-// c16StoresTo: all stores to alloc al in fn and in its closures (through free-variable bindings).
-func c16StoresTo(al *ssa.Alloc, fn *ssa.Function) []*ssa.Store {
-	var out []*ssa.Store
-	for _, ref := range *al.Referrers() {
-		switch x := ref.(type) {
-		case *ssa.Store:
-			if x.Addr == ssa.Value(al) {
-				out = append(out, x)
+		for _, r := range rets {
+			if len(r.Results) == 0 {
+				return false, false
 			}
-		case *ssa.MakeClosure:
-			cl := x.Fn.(*ssa.Function)
-			for i, b := range x.Bindings {
-				if b == ssa.Value(al) {
-					fv := cl.FreeVars[i]
-					for _, r2 := range *fv.Referrers() {
-						if st, ok := r2.(*ssa.Store); ok && st.Addr == ssa.Value(fv) {
-							out = append(out, st)
-						}
-					}
-				}
+			fr, dec := c16Fresh(returnValues(r)[0], d+1)
+			if !dec || !fr {
+				return fr, dec
 			}
 		}
+		return true, true
 	}
-	return out
-}
-
-// c16UndeliveredPath searches a path from select sel to block target on which the state sendIdx was
-// NOT the one taken (the report was not delivered), tracking the feasible values of the select index.
-func c16UndeliveredPath(sel *ssa.Select, sendIdx int, target *ssa.BasicBlock) ([]*ssa.BasicBlock, bool) {
-	idx := selIndex(sel)
-	feasible := map[int]bool{}
-	for i := range sel.States {
-		if i != sendIdx {
-			feasible[i] = true
-		}
-	}
-	if !sel.Blocking {
-		feasible[-1] = true
-	}
-	type key struct {
-		b *ssa.BasicBlock
-		s string
-	}
-	enc := func(m map[int]bool) string {
-		s := ""
-		for i := -1; i < len(sel.States); i++ {
-			if m[i] {
-				s += itoa(i) + ","
-			}
-		}
-		return s
-	}
-	seen := map[key]bool{}
-	var path []*ssa.BasicBlock
-	var walk func(b *ssa.BasicBlock, f map[int]bool) bool
-	walk = func(b *ssa.BasicBlock, f map[int]bool) bool {
-		if len(f) == 0 || seen[key{b, enc(f)}] {
-			return false
-		}
-		seen[key{b, enc(f)}] = true
-		path = append(path, b)
-		if b == target {
-			return true
-		}
-		if iff, ok := b.Instrs[len(b.Instrs)-1].(*ssa.If); ok && idx != nil {
-			if bin, ok := iff.Cond.(*ssa.BinOp); ok && bin.Op == token.EQL && bin.X == idx {
-				if k, ok := an.ConstInt(bin.Y); ok {
-					t, e := map[int]bool{}, map[int]bool{}
-					for i := range f {
-						if i == int(k) {
-							t[i] = true
-						} else {
-							e[i] = true
-						}
-					}
-					if walk(b.Succs[0], t) || walk(b.Succs[1], e) {
-						return true
-					}
-					path = path[:len(path)-1]
-					return false
-				}
-			}
-		}
-		for _, s := range b.Succs {
-			if s == sel.Block() {
-				continue
-			}
-			if walk(s, f) {
-				return true
-			}
-		}
-		path = path[:len(path)-1]
-		return false
-	}
-	return path, walk(sel.Block(), feasible)
+	return false, false
 }
